@@ -92,6 +92,60 @@ func (r *Run) collectPtrOffsets(t types.Type, base int64, out map[int64]bool) {
 	}
 }
 
+// boolOffsets: offsets of bytes whose allocation type is bool. A Go bool holds
+// 0 or 1; any other bit pattern is not a value of the type (it is truthy in a
+// branch and unequal to true).
+func (r *Run) boolOffsets(o *Object) map[int64]bool {
+	if o.boolOK {
+		return o.boolOff
+	}
+	o.boolOK = true
+	if o.T != nil {
+		out := map[int64]bool{}
+		r.collectBoolOffsets(o.T, 0, out)
+		if len(out) > 0 {
+			o.boolOff = out
+		}
+	}
+	return o.boolOff
+}
+
+func (r *Run) collectBoolOffsets(t types.Type, base int64, out map[int64]bool) {
+	switch u := under(t).(type) {
+	case *types.Basic:
+		if u.Info()&types.IsBoolean != 0 {
+			out[base] = true
+		}
+	case *types.Struct:
+		offs := r.eng.fieldOffsets(u)
+		for i := 0; i < u.NumFields(); i++ {
+			r.collectBoolOffsets(u.Field(i).Type(), base+offs[i], out)
+		}
+	case *types.Array:
+		es := r.eng.sizes.Sizeof(u.Elem())
+		if es == 0 || u.Len() > 4096 {
+			return
+		}
+		tmp := map[int64]bool{}
+		r.collectBoolOffsets(u.Elem(), 0, tmp)
+		for i := int64(0); i < u.Len() && len(tmp) > 0; i++ {
+			for o := range tmp {
+				out[base+i*es+o] = true
+			}
+		}
+	}
+}
+
+func isBoolByte(t *Term) bool {
+	if t.IsConst() {
+		return t.Val <= 1
+	}
+	if t.Op == OpIte && len(t.Args) == 3 {
+		return isBoolByte(t.Args[1]) && isBoolByte(t.Args[2])
+	}
+	return false
+}
+
 func (r *Run) memEvent(kind, detail string) {
 	if !r.strict || r.inPrefix() {
 		return
@@ -200,6 +254,16 @@ func (r *Run) storeBytes(p Ptr, bs []*Term) {
 					r.memEvent("scalar-into-pointer-word", fmt.Sprintf("obj%d(%v)+%d", o.ID, o.T, off))
 				}
 				break
+			}
+		}
+	}
+	if r.strict && o.T != nil && !r.inPrefix() {
+		if bo := r.boolOffsets(o); bo != nil {
+			for i := int64(0); i < n; i++ {
+				if bo[p.Off+i] && !isBoolByte(bs[i]) {
+					r.check(r.ts.ULE(bs[i], r.ts.Const(8, 1)), "heap-typing", "byte other than 0 or 1 stored into a bool",
+						fmt.Sprintf("obj%d(%v)+%d", o.ID, o.T, p.Off+i))
+				}
 			}
 		}
 	}
